@@ -53,7 +53,8 @@
 
     place.world <impl> <mode> <call> {' | ' <call>}
         impl  := ('F' | 'R' | 'G') <reset> <atEntry> <atCore>    each '0' | '1'; e.g. F010 = Impl.go
-        mode  := 'seq' | 'il:' <rid> {'.' <rid>}
+        mode  := 'seq' | 'par' | 'il:' <rid> {'.' <rid>}     (`par`: free-running goroutines; the model
+                 runs the calls in sequence — every merge gives the same answer when allocation is fresh)
         call  := <parent> {' > ' <run>}          one call of HandleRequest and the runs of the core
         parent:= 'c' <nat> | 'i' <rid>           connection context | inside request rid's handlers
         run   := <wraps> ' ! ' <request>         wraps := number of contexts the middleware derives
@@ -281,7 +282,7 @@ def placeWorld (impl : Impl) (mode : String) (calls : List (Parent × List (Nat 
   let progs := calls.map fun c => prog c.1 (c.2.map fun (w, srv, req) => ⟨List.range w, steps srv req⟩)
   if marked.map (·.map (·.1)) ≠ progs then none
   let sched ←
-    if mode = "seq" then some []
+    if mode = "seq" ∨ mode = "par" then some []
     else if mode.startsWith "il:" then
       (parseList (mode.drop 3).toString "." String.toNat?).map fun rs =>
         expandSched rs (marked.map fun m => m.map (·.2))
